@@ -84,3 +84,12 @@ func loadJSON(path string, v any) {
 }
 
 func hexs(b []byte) string { return hex.EncodeToString(b) }
+
+func (a *Args) hasRest(w string) bool {
+	for _, r := range a.Rest {
+		if r == w {
+			return true
+		}
+	}
+	return false
+}
